@@ -96,6 +96,14 @@ def parse_case(case):
             obj = p.parseString(files[inp['root']], href='http://h/' + inp['root'])
         else:
             data = inp.encode('latin-1') if kind == 'bytes' else inp
+            if kind == 'bytes':
+                # the property's domain: byte strings decodable under the encoding that applies (BOM / @charset / default);
+                # a declared name may be unknown or no text encoding at all (hex, rot13, zlib: any exception type)
+                import codecs
+                try:
+                    codecs.getdecoder('css')(data)
+                except Exception as e:  # noqa
+                    out['undecodable'] = type(e).__name__
             obj = cssutils.CSSParser(parseComments=pc, validate=val).parseString(data)
         out['t_parse'] = time.perf_counter() - t0
         if cssutils.log.raiseExceptions is not True:
@@ -196,7 +204,7 @@ def run(ctx):
             ctx.violation('worker-' + r[0], cj, r[1], KNOWN_PRED)
             continue
         o = r[1]
-        if 'exc' in o and case['kind'] == 'bytes' and o['stage'] == 'parse' and o['exc'].startswith(('UnicodeDecodeError', 'LookupError')):
+        if 'exc' in o and case['kind'] == 'bytes' and o['stage'] == 'parse' and o.get('undecodable') and o['exc'].startswith(o['undecodable']):
             # out of the property's domain: a byte string that is not decodable under the encoding that applies
             ctx.count('undecodable_bytes')
             continue
